@@ -193,11 +193,16 @@ def gen_plan(rng, tier="quick"):
         cfg["K"] = min(cfg["K"], 4)
         cfg["gap_mean"] = max(cfg["gap_mean"], 5)
     plan = {"engine": NAME, "recipe": recipe, "op": op, "chunks": chunks, "aux": aux, "aux_chunks": aux_chunks, "coords": coords, "cfg": cfg}
-    if rng.random() < 0.12 and recipe["nd"]:
+    if rng.random() < (0.12 if tier == "thorough" else 0.05) and recipe["nd"] and not heavy:
         # the dask-backed data is what one of the library's readers returns for a file (chunks= given to the reader, in
         # wavespectra's or the file's own dimension names), the in-memory data what the same reader returns, loaded
         station = sorted(k for k, _ in dims) == ["site", "time"]
         plan["source"] = {"fmt": rng.choice(["ww3", "netcdf"]) if station else "netcdf", "names": rng.choice(["ws", "ws", "native"])}
+        # graphs over an opened file carry the readers' own post-processing per block (sorting, unit conversion, renaming):
+        # keep them to a handful of blocks
+        while int(np.prod([nblocks(k) for k in chunks])) > (6 if tier == "thorough" else 4):
+            k = max(sorted(chunks), key=nblocks)
+            chunks[k] = -1 if nblocks(k) <= 2 or sizes[k] <= 2 else -(-sizes[k] // 2)
     if rng.random() < (0.35 if op["m"] in O.PARTITIONS or op["m"].startswith("fit") else 0.15) and op["m"] not in ("sel", "interp", "reconstruct"):
         if cfg["strategy"] in ("solo", "pct") and rng.random() < 0.7:
             cfg["strategy"] = rng.choice(["rw", "lockstep"])
